@@ -16,6 +16,7 @@ import vcommon as V
 
 sys.path.insert(0, os.path.join(V.VERIF, "translator"))
 import c13_kidok as TK  # noqa
+import c14_idmap as TI  # noqa  (DOMNodeIDMap sizes and the XMLString::hash constants, shared with C14)
 
 
 def hx(s):
@@ -32,10 +33,17 @@ W_FRAGDOC = "1 1 ; cr 0 f - - ; cr 0 e %s - ; cr 0 e %s - ; ac 1 2 ; ac 1 3 ; ac
 W_STALE = "1 1 ; cr 0 e %s - ; ac 0 1 ; rp 0 1 1 ; cr 0 e %s - ; ac 0 2" % (hx("a"), hx("b"))                 # F28
 W_NORM = "1 1 ; cr 0 e %s - ; cr 0 t - - ; ac 1 2 ; nz 1" % hx("a")                                            # F29
 W_OWNATTR = "1 1 ; cr 0 e %s - ; sa 1 %s %s ; sn 1 2" % (hx("e"), hx("k"), hx("v"))                        # F33
+W_IDREPL = "1 1 ; cr 0 e %s - ; cr 0 e %s - ; sa 1 %s %s ; sa 2 %s %s ; si 1 %s 1 ; si 2 %s 1 ; cr 0 a %s - ; sn 1 7 ; gi 0 %s" % (
+    hx("a"), hx("b"), hx("id"), hx("dup"), hx("id"), hx("dup"), hx("id"), hx("id"), hx("id"), hx("dup"))            # F36
+W_IDNODE = "1 1 ; cr 0 e %s - ; cr 0 e %s - ; sa 1 %s %s ; sa 2 %s %s ; sin 1 5 1" % (hx("a"), hx("b"), hx("id"), hx("x"), hx("id"), hx("y"))   # F37
+W_IDHASH = "1 1 ; cr 0 e %s - ; sa 1 %s %s ; si 1 %s 1 ; sd 3 %s ; gi 0 %s" % (hx("a"), hx("id"), hx("x"), hx("id"), hx("y"), hx("y"))          # F38
+W_RELID = "1 0 ; cr 0 e %s - ; cr 0 e %s - ; sa 1 %s %s ; sa 2 %s %s ; si 1 %s 1 ; si 2 %s 1 ; rlx 1 ; gi 0 %s" % (
+    hx("a"), hx("b"), hx("id"), hx("dup"), hx("id"), hx("dup"), hx("id"), hx("id"), hx("dup"))                      # F35 (own process)
 W_RNAME = "1 1 ; cr 0 e %s - ; rn 0 1 - %s" % (hx("a"), hx("1a"))                                            # F30
 W_RNSET = "1 1 ; cr 0 e %s - ; rn 0 1 %s %s ; rn 0 2 %s %s" % (hx("a"), hx("u"), hx("p:b"), hx("u"), hx("q:"))   # F31
 WITNESSES = [("F18", W_SELF), ("F18", W_SELF2), ("F26", W_CLONE), ("F27", W_FRAGDOC), ("F28", W_STALE), ("F29", W_NORM),
-             ("F30", W_RNAME), ("F31", W_RNSET), ("F33", W_OWNATTR)]
+             ("F30", W_RNAME), ("F31", W_RNSET), ("F33", W_OWNATTR),
+             ("F36", W_IDREPL), ("F37", W_IDNODE), ("F38", W_IDHASH)]
 
 NAMES = ["a", "b", "c", "a:b", "x-1", "_q"]
 QNAMES = ["a", "b", "p:b2", "q:c", "xml:a", "xmlns", "xmlns:p", "a:b:c", ":a", "p:", "1a", "p:1", "", "a b"]
@@ -181,11 +189,96 @@ def gen_attrs(ctx, cases):
                     cases.append(("attr-3", head + " ; " + a + " ; " + b + " ; " + c))
 
 
+UKEYS = [hx("k1"), hx("k2"), hx("k3")]
+
+
+def gen_userdata(ctx, cases):
+    """user data life cycle: setUserData (with / without handler, one or several keys) on every node type, release() of
+    the detached node or of a subtree, then creation of nodes of the same types (the released objects are recycled) and
+    setUserData / getUserData on the NEW nodes; a dump (getUserData for every live node and key) after every operation"""
+    types = {"e": "cr 0 e %s -" % hx("n"), "t": "cr 0 t - %s" % hx("x"), "c": "cr 0 c - %s" % hx("x"), "s": "cr 0 s - %s" % hx("x"),
+             "p": "cr 0 p %s %s" % (hx("pi"), hx("d")), "f": "cr 0 f - -", "r": "cr 0 r %s -" % hx("er"), "a": "cr 0 a %s -" % hx("at")}
+    for t, mk in types.items():
+        for sets in (["su 1 %s 5 0" % UKEYS[0]], ["su 1 %s 5 1" % UKEYS[0]],
+                     ["su 1 %s 5 0" % UKEYS[0], "su 1 %s 6 0" % UKEYS[1]],
+                     ["su 1 %s 5 0" % UKEYS[0], "su 1 %s 6 1" % UKEYS[1]],
+                     ["su 1 %s 5 1" % UKEYS[0], "su 1 %s 6 1" % UKEYS[1], "su 1 %s 0 0" % UKEYS[0]]):
+            for after in (["su 2 %s 9 0" % UKEYS[2], "gu 2 %s" % UKEYS[0], "su 2 %s 8 0" % UKEYS[0], "su 2 %s 0 0" % UKEYS[1]],
+                          ["gu 2 %s" % UKEYS[0], "su 2 %s 7 1" % UKEYS[0], "cl 2 0", "rl 2", mk, "su 4 %s 1 0" % UKEYS[1]],
+                          ["su 2 %s 0 0" % UKEYS[0], "su 2 %s 3 0" % UKEYS[1], "gu 2 %s" % UKEYS[0]]):
+                cases.append(("udata-1", "1 1 ; " + " ; ".join([mk] + sets + ["rl 1", mk] + after)))
+    # a subtree with attributes: every node carries user data; detach, release, re-create nodes of all the types
+    pre = ["cr 0 e %s -" % hx("r"), "ac 0 1", "cr 0 e %s -" % hx("a"), "ac 1 2", "cr 0 t - %s" % hx("x"), "ac 2 3",
+           "cr 0 c - %s" % hx("y"), "ac 2 4", "sa 2 %s %s" % (hx("k"), hx("v"))]           # 5 attr, 6 its text
+    for h in (0, 1):
+        for tgt in (1, 2):
+            ops = list(pre) + ["su %d %s %d %d" % (n, UKEYS[n % 3], n + 1, h if n % 2 else 0) for n in (1, 2, 3, 4, 5, 6)]
+            ops += ["rl %d" % tgt, "rm %d %d" % ((0, 1)[tgt - 1], tgt), "rl %d" % tgt]
+            ops += ["cr 0 e %s -" % hx("n"), "cr 0 t - %s" % hx("n"), "cr 0 c - %s" % hx("n"), "cr 0 a %s -" % hx("n"),
+                    "cr 0 e %s -" % hx("m"), "cr 0 t - %s" % hx("m")]
+            ops += ["su %d %s 9 0" % (n, UKEYS[2]) for n in range(7, 13)] + ["gu %d %s" % (n, UKEYS[k]) for n in range(7, 13) for k in (0, 1)]
+            cases.append(("udata-tree", "1 1 ; " + " ; ".join(ops)))
+    # rename into a namespace moves the user data to the new node; clone does not copy it
+    cases.append(("udata-rename", "1 1 ; cr 0 e %s - ; su 1 %s 5 1 ; su 1 %s 6 0 ; rn 0 1 %s %s ; cl 2 1 ; rl 1 ; cr 0 e %s - ; su 4 %s 1 0"
+                  % (hx("a"), UKEYS[0], UKEYS[1], hx("u"), hx("p:b"), hx("z"), UKEYS[2])))
+
+
+def gen_ids(ctx, cases, rlx_ok):
+    """ID bookkeeping with DUPLICATE ID values: three elements carry an ID attribute with the same value (every registration
+    order), ONE of them is un-registered by each route, then getElementById for that value, another value and a missing one"""
+    dup, other = hx("dup"), hx("other")
+    pre = ["cr 0 e %s -" % hx("root"), "ac 0 1", "cr 0 e %s -" % hx("a"), "cr 0 e %s -" % hx("b"), "cr 0 e %s -" % hx("c"),
+           "ac 1 2", "ac 1 3", "ac 1 4", "cr 0 e %s -" % hx("d"), "ac 1 5",
+           "sa 2 %s %s" % (hx("id"), dup), "sa 3 %s %s" % (hx("id"), dup), "sa 4 %s %s" % (hx("id"), dup),
+           "sa 5 %s %s" % (hx("id"), other), "cr 0 a %s -" % hx("id")]
+    # attrs: 6 (on 2), 8 (on 3), 10 (on 4), 12 (on 5), 14 detached; texts 7 9 11 13
+    attr_of = {2: 6, 3: 8, 4: 10, 5: 12}
+    look = ["gi 0 %s" % dup, "gi 0 %s" % other, "gi 0 %s" % hx("zz")]
+    routes = {
+        "xn": lambda e: ["xn %d %d" % (e, attr_of[e])],
+        "ra": lambda e: ["ra %d %s" % (e, hx("id"))],
+        "si0": lambda e: ["si %d %s 0" % (e, hx("id"))],
+        "sin0": lambda e: ["sin %d %d 0" % (e, attr_of[e])],
+        "setvalue": lambda e: ["sa %d %s %s" % (e, hx("id"), hx("changed"))],
+        "setnodevalue": lambda e: ["sd %d %s" % (attr_of[e], hx("changed"))],
+        "replace": lambda e: ["sn %d 14" % e],
+        "release": lambda e: ["rm 1 %d" % e, ("rlx %d" if rlx_ok else "rl %d") % e],
+        "rename": lambda e: ["rn 0 %d - %s" % (attr_of[e], hx("idx"))],
+    }
+    for order in itertools.permutations((2, 3, 4)):
+        reg = ["si %d %s 1" % (e, hx("id")) for e in order] + ["si 5 %s 1" % hx("id")]
+        for e in (2, 3, 4):
+            for name, r in routes.items():
+                cases.append(("ids-1-" + name, "1 1 ; " + " ; ".join(pre + reg + look[:1] + r(e) + look)))
+                for e2 in (2, 3, 4):
+                    if e2 != e and name in ("xn", "si0", "setvalue", "release"):
+                        for name2 in ("xn", "ra", "si0", "setvalue"):
+                            cases.append(("ids-2", "1 0 ; " + " ; ".join(pre + reg + r(e) + look[:1] + routes[name2](e2) + look)))
+    # re-registration, ID attributes whose value is edited through their children, clones of elements with ID attributes
+    for extra in (["si 2 %s 1" % hx("id"), "si 2 %s 0" % hx("id"), "si 2 %s 1" % hx("id")] + look,
+                  ["si 2 %s 1" % hx("id"), "sd 7 %s" % other] + look, ["si 2 %s 1" % hx("id"), "cl 2 1"] + look + ["rm 1 2"] + look,
+                  ["si 2 %s 1" % hx("id"), "sin 3 6 1", "sin 3 14 1", "sin 3 8 1"] + look):
+        cases.append(("ids-misc", "1 1 ; " + " ; ".join(pre + extra)))
+
+
 def rand_op(rng):
     r = rng.random
     R = lambda: "%%%d" % rng.randrange(1 << 20)
     k = rng.random()
-    if k < 0.05:
+    if k < 0.03:
+        o = rng.choice(["su", "su", "gu", "rl", "rl", "si", "sin", "gi"])
+        if o == "su":
+            return "su %s %s %d %d" % (R(), rng.choice(UKEYS), rng.choice([0, 1, 2, 3]), rng.randrange(2))
+        if o == "gu":
+            return "gu %s %s" % (R(), rng.choice(UKEYS))
+        if o == "rl":
+            return "rl %s" % R()
+        if o == "si":
+            return "si %s %s %d" % (R(), hx(rng.choice(NAMES)), rng.randrange(2))
+        if o == "sin":
+            return "sin %s %s %d" % (R(), R(), rng.randrange(2))
+        return "gi %d %s" % (rng.randrange(3), hx(rng.choice(DATA)))
+    if k < 0.07:
         o = rng.choice(["sn", "sn", "xn", "xn", "gn"])
         return "gn %s %s" % (R(), hx(rng.choice(NAMES))) if o == "gn" else "%s %s %s" % (o, R(), R())
     if k < 0.16:
@@ -302,6 +395,7 @@ def run(ctx):
     ctx.build_lib()
     try:
         TK.generate()
+        TI.generate()
     except Exception as e:
         ctx.note("translator failed: %r" % (e,))
         ctx.violation("translator", {"what": "translator can no longer read DOMDocumentImpl::isKidOK / the DOM enums",
@@ -330,8 +424,21 @@ def run(ctx):
     fix_self = heads(impl_w[0]) == heads(models["m11"][0]) and impl_w[1].split(" ")[-1] == "consistent" and \
         impl_w[1] == models["m11"][1]
     fix_clone = impl_w[2] == models["m11"][2]
-    mode = "m%d%d" % (fix_self, fix_clone)
+    # the later defect switches (one per proposed fix): a switch is on when the implementation answers the finding's witness
+    # like the repaired model and unlike the model of the code as found
+    SWITCHES = [("F27", "fix_fragdoc"), ("F28", "fix_docel"), ("F29", "fix_normempty"), ("F30", "fix_rnname"),
+                ("F36", "fix_setattr_id"), ("F37", "fix_idnode")]
+    w_found = run_bin(xm, ["m11000000"], wl)[1]
+    w_fixed = run_bin(xm, ["m11111111"], wl)[1]
+    wnames = [f for f, _ in WITNESSES]
+    newbits = ""
+    for fid, _ in SWITCHES:
+        k = wnames.index(fid)
+        newbits += "1" if (impl_w[k] == w_fixed[k] and impl_w[k] != w_found[k]) else "0"
+    mode = "m%d%d" % (fix_self, fix_clone) + newbits
+    REPAIRED = "m11" + newbits            # F18/F26 repaired, the later switches as the tree is
     ctx.coverage["defect_switches_detected"] = {"fix_self(F18)": fix_self, "fix_cloneflag(F26)": fix_clone}
+    ctx.coverage["defect_switches_detected"].update({"%s(%s)" % (n, f): b == "1" for (f, n), b in zip(SWITCHES, newbits)})
     for fid, present, widx, marker, what in (
             ("F18", not fix_self, 0, "INCONSISTENT:own-ancestor", "e.appendChild(e) succeeds: the node becomes its own parent/child "
              "(DOMParentNode::insertBefore starts the ancestor walk at the parent of the target and skips it for a childless "
@@ -364,7 +471,7 @@ def run(ctx):
             ctx.known_finding("F32", what + " (witness `%s`)" % W_SUBSTR)
         else:
             ctx.violation("F32", {"request": W_SUBSTR, "impl": "process died rc=%d" % rcS, "stderr": errS[-500:],
-                                  "model_repaired": run_bin(xm, ["m11"], [W_SUBSTR])[1][0][:500], "what": what,
+                                  "model_repaired": run_bin(xm, [REPAIRED], [W_SUBSTR])[1][0][:500], "what": what,
                                   "fix": "fixes/C13-substring-count.patch"})
 
     # F33: setAttributeNode of an attribute the element already has clears its ownerElement (fix: fixes/C13-setnameditem-self.patch)
@@ -378,8 +485,26 @@ def run(ctx):
         if ctx.find_known("F33"):
             ctx.known_finding("F33", what33 + " (witness `%s`)" % w33)
         else:
-            ctx.violation("F33", {"request": w33, "impl": out33[:3000], "model_repaired": run_bin(xm, ["m11"], [w33])[1][0][:3000],
+            ctx.violation("F33", {"request": w33, "impl": out33[:3000], "model_repaired": run_bin(xm, [REPAIRED], [w33])[1][0][:3000],
                                   "what": what33, "fix": "fixes/C13-setnameditem-self.patch"})
+
+    # F35: release() of an element / attribute does not take its ID attributes out of the ID map (dangling entries).  The
+    # release of a subtree that holds a registered ID attribute is therefore not performed by `rl` (both sides skip it);
+    # `rlx` performs it and is generated only when the probe (in a process of its own) shows the repaired behaviour.
+    rc35, out35, err35 = run_bin(xh, [], [W_RELID])
+    mod35 = run_bin(xm, [REPAIRED], [W_RELID])[1][0]
+    f35_present = rc35 != 0 or not out35 or out35[0] != mod35
+    ctx.coverage["defect_switches_detected"]["fix_release_idmap(F35)"] = not f35_present
+    if f35_present:
+        what35 = ("release() of an element (or of a detached attribute) leaves its ID attributes in the document's ID map: "
+                  "getElementById then returns null although another element carries that ID, and the entry dangles once the "
+                  "attribute's storage is recycled")
+        if ctx.find_known("F35"):
+            ctx.known_finding("F35", what35 + " (witness `%s`: implementation %s)" % (
+                W_RELID, "died rc=%d" % rc35 if rc35 != 0 or not out35 else "answers `%s`" % out35[0].split(" | ")[0]))
+        else:
+            ctx.violation("F35", {"request": W_RELID, "impl": (out35 or ["died"])[0][:3000], "model_repaired": mod35[:3000],
+                                  "what": what35, "fix": "fixes/C13-release-idmap.patch"})
 
     # ---- 2. cases
     cases = []
@@ -393,6 +518,8 @@ def run(ctx):
         gen_counts(ctx, cases)
         gen_rename(ctx, cases)
         gen_attrs(ctx, cases)
+        gen_userdata(ctx, cases)
+        gen_ids(ctx, cases, not f35_present)
         gen_random(ctx, cases)
     lines = [c[1] for c in cases]
     impl, crashes = run_impl(ctx, xh, lines)
@@ -400,7 +527,7 @@ def run(ctx):
     if rc2 != 0 or len(model) != len(lines):
         ctx.violation("model-crash", {"what": "model driver crashed", "stderr": err2[-2000:]}, no_input=True)
         return
-    model11 = model if mode == "m11" else run_bin(xm, ["m11"], lines)[1]
+    model11 = model if mode == REPAIRED else run_bin(xm, [REPAIRED], lines)[1]
     affected = set(k for k in range(len(lines)) if model[k] != model11[k])      # touched by a defect reported above
     ncr = 0
     for pos, rc, err in crashes:
@@ -471,7 +598,7 @@ def run(ctx):
     #  (b) on all agreeing cases: model (as the tree is) against the reference DOM in lock step; abs(heap) = store after
     #      every operation, the dumps whenever the harness dumps.  impl = model there, so this judges the implementation.
     agree_idx = [k for k in range(len(cases)) if impl[k] == model[k] and k not in affected]
-    cmp_out = run_bin(xm, ["cmp11"], [lines[k] for k in agree_idx])[1]
+    cmp_out = run_bin(xm, ["cmp" + REPAIRED[1:]], [lines[k] for k in agree_idx])[1]
     classes = {}
     spec_viol = 0
     for k, c in zip(agree_idx, cmp_out):
@@ -480,7 +607,11 @@ def run(ctx):
         f = dict(x.split("=", 1) for x in c.split(" ")[3:] if "=" in x)
         opn = c.split(" ")[2]
         cls = None
-        if opn in ("ac", "ib", "rp") and f.get("f27") == "true" and f.get("model") == "e3" and f.get("unchanged") == "false":
+        if opn in ("ac", "ib", "rp") and (
+                (f.get("f27") == "true" and f.get("model") == "e3" and f.get("unchanged") == "false") or
+                # the reference DOM refuses a fragment with two root elements before it looks at anything else; as found the
+                # same operation fails later for another reason (both raise, nothing changes)
+                (f.get("types") == "9/11" and f.get("model", "").startswith("e") and f.get("spec") == "e3" and f.get("unchanged") == "true")):
             cls = "F27"     # exactly: all children legal for the Document, >= 2 root elements would result
         elif opn == "rn" and f.get("rn", "").startswith("badname") and f.get("model", "").startswith("n") and f.get("spec") == "e5":
             cls = "F30"
@@ -489,6 +620,12 @@ def run(ctx):
             cls = "F31"
         elif opn == "sn" and f.get("sn") == "own" and f.get("unchanged") == "false":
             cls = "F33"
+        elif (opn == "gi" and f.get("gi") == "detached") or (opn == "sn" and f.get("sn") == "replid"):
+            cls = "F36"
+        elif opn == "gi" and f.get("gi") == "stalehash":
+            cls = "F38"
+        elif opn == "sin" and f.get("gi") == "othernode" and f.get("model") == "ok" and f.get("spec") == "e8":
+            cls = "F37"
         elif opn == "nz":
             cls = "F29"
         elif f.get("stale_docel") == "true" and opn in ("ac", "ib", "rp") and f.get("types", "").startswith("9/"):
@@ -512,6 +649,13 @@ def run(ctx):
         "F29": "normalize() merges adjacent Text nodes but does not remove empty Text nodes (DOM Core Node.normalize)",
         "F33": "setAttributeNode(a) with a already an attribute of the element: DOMAttrMapImpl::setNamedItem treats a as the "
                "'previous' attribute and clears its owner: a stays in the element's map but getOwnerElement() is null",
+        "F36": "an ID attribute that is replaced by setAttributeNode (or whose element is otherwise left without it) stays in the "
+               "ID map: getElementById finds the detached attribute first and returns null although another element carries that ID",
+        "F37": "setIdAttributeNode(attr, flag) looks the attribute up by NAME on the element and changes the element's own "
+               "attribute of that name instead of raising NOT_FOUND_ERR when attr is not an attribute of the element",
+        "F38": "the ID map files an attribute under the hash of the value it had when it was registered: after the value changed "
+               "through the attribute's children (Text edits, appendChild; a cloned ID attribute is registered before it has "
+               "a value) getElementById(current value) returns null",
         "F30": "renameNode does not check the new name when the node keeps its implementation class (no namespace for a "
                "Level-1 node, any rename of a namespace-aware node without a colon): an invalid XML name is accepted instead "
                "of INVALID_CHARACTER_ERR",
